@@ -468,7 +468,7 @@ func init() {
 			"non-trivial = the history offers a rejected value for a component that already held an accepted one; distinct = the literal history.",
 		Assumptions: []string{"SetKeyword(\"\") may or may not be accepted (statement silent): the model follows the code", "typed nil pointers as expression are not offered (C08 covers their safety)", "no validity/presentation policy installed (C14)"},
 		Floors: func(string) map[string]int64 {
-			return map[string]int64{"rejected.op": 1000, "rejected.ex": 1000, "accepted.ex": 1000, "histories.accepted-then-rejected": 1000, "strings-compared": 10000}
+			return map[string]int64{"rejected.op": 1000, "other-instances-in-between": 10000, "cases.with-bystander-goroutines": 5000, "rejected.ex": 1000, "accepted.ex": 1000, "histories.accepted-then-rejected": 1000, "strings-compared": 10000}
 		},
 	})
 }
